@@ -29,7 +29,14 @@
   channel maps that `get` cannot observe — the simulation would have to be carried out up to that
   equivalence (a confluence argument like C02's); (2) rerun nodes, which relate two different node behaviours through the
   user's pre-handler and the state (only what is restored is proved: `rerun_restores_exactly`,
-  `rerun_input_rebuilt`); (3) the Stream paradigm (`mixed_paradigm_resume`): not modelled; (4) failing
+  `rerun_input_rebuilt`); (3) the stream paradigms (`mixed_paradigm_resume`): modelled only as far as they
+  differ observably from the value paradigm in the case language — the stream without chunks, section
+  "Streams" at the end of this file: the checkpoint round trip of a stream keeps "no chunk" / the merged
+  chunks (`checkpoint_preserves_chunkless_stream`, `checkpoint_preserves_observed_stream`, for the
+  converter as the source has it), a history whose calls all run in one mode is the `resumeLoop` the
+  theorems above speak about (`one_mode_history_is_resume_loop`), so `resume_equiv_*` apply to stream-mode
+  histories over a value universe that contains the chunk-less stream; a value-mode call resuming a
+  stream-mode checkpoint (or vice versa) has no theorem; (4) failing
   runs with nested interrupts (the error reported depends on the completion order).  These are covered
   by the correspondence check only (harness/props/c05.go compares every resumed history, a part of them
   driven through Stream, with the uninterrupted run).
@@ -46,6 +53,8 @@ import EinoV.Proofs.C05NestedEngine
 import EinoV.Proofs.C05NestedDepth
 import EinoV.Proofs.C06Nested
 import EinoV.Proofs.C05NestedExamples
+import EinoV.Model.C05Streams
+import EinoV.Proofs.C05Streams
 import EinoV.Gen.FactsC05
 import EinoV.Expected.C05
 
@@ -695,5 +704,133 @@ example : (resumeUntilDone natOps fixedCfg (rr false) ISched.id 10 5).map (fun o
 example : SchedKeeps (ISched.id (V := Nat) (S := Nat × Nat) (X := Unit)) := fun _ _ h => h
 
 end Rerun
+
+/-! ## Streams: the stream without chunks through a checkpoint
+
+  The stream paradigms (Stream / Collect / Transform) run the same loop on streams. In the graph case
+  language they differ observably from the value paradigm in one value only: the stream that is closed
+  without any chunk (a filter that lets nothing through). The value paradigm has no such value; a
+  checkpoint taken in a stream paradigm has to carry it — as a pending input, as a channel content, at any
+  nesting level — and hand it back as what it was. A checkpoint stores values, so every stream goes
+  through `defaultStreamConvertPair` (`concatStream` on write, `restoreStream` on read): Model/C05Streams.lean
+  `concatS` / `restoreS`, with the answer for the chunk-less stream as source fact `emptyStreamStoredAsNil`.
+
+  PROVED: the round trip keeps "no chunk at all" and otherwise the merged chunks, i.e. everything the case
+  language observes of a stream (`checkpoint_preserves_chunkless_stream`,
+  `checkpoint_preserves_observed_stream`, for the converter as the source has it); a second round trip
+  changes nothing (`checkpoint_round_trip_idempotent`); with the typed zero value stored instead, the
+  chunk-less stream comes back as a stream with one zero chunk (`zero_value_checkpoint_loses_chunkless_stream`,
+  negation witness); the extension of the value universe by `emptyV` is conservative
+  (`mergeE_conservative`), a fan-in drops chunk-less streams (`mergeE_drops_chunkless`); a history whose
+  calls all run in one mode is `resumeLoop` (`one_mode_history_is_resume_loop`) — hence
+  `resume_equiv_pregel` / `resume_equiv_dag` / `resume_equiv_nested` speak about stream-mode histories
+  over a value universe that contains the chunk-less stream (`V` is arbitrary there; the `example`s below
+  run such a history).
+  NOT PROVED: that the Go run loop on streams is this loop on `absS`-abstractions of the streams (the
+  correspondence check: streams family, harness/props/c05_empty.go); histories that mix value-mode and
+  stream-mode calls. -/
+section Streams
+open EinoV.Interrupt.Streams
+
+variable {V S X : Type}
+
+/-- **Source fact tie for the stream converter of checkpoints.** -/
+theorem empty_stream_fact_match : FactsC05.emptyStreamStoredAsNil = Expected.C05.emptyStreamStoredAsNil := by decide
+
+/-- **checkpoint_preserves_chunkless_stream.**  Through one checkpoint round trip (written in a stream
+    paradigm, read in a stream paradigm; the converter as the source has it) a stream comes back without
+    chunks exactly if it had none: "pending inputs, channel contents … survive the round trip" for the one
+    value the stream paradigms add. -/
+theorem checkpoint_preserves_chunkless_stream (ops : ValOps V) (s cs : Chunks V)
+    (h : roundTrip FactsC05.emptyStreamStoredAsNil ops s = some cs) : cs = [] ↔ s = [] := by
+  have hf : FactsC05.emptyStreamStoredAsNil = true := by decide
+  rw [hf] at h
+  exact roundTrip_nil_iff ops s cs h
+
+/-- **checkpoint_preserves_observed_stream.**  … and what a reader observes of the stream — no chunk at
+    all (`e`), or the chunks merged — is the same before and after (chunk boundaries other than "none" are
+    not preserved: a restored stream has at most one chunk). -/
+theorem checkpoint_preserves_observed_stream (ops : ValOps V) (e : V) (s cs : Chunks V)
+    (h : roundTrip FactsC05.emptyStreamStoredAsNil ops s = some cs) : absS ops e cs = absS ops e s := by
+  have hf : FactsC05.emptyStreamStoredAsNil = true := by decide
+  rw [hf] at h
+  exact roundTrip_abs ops e s cs h
+
+/-- the round trip fails only for chunks that cannot be merged (whatever is stored for "no chunk") -/
+theorem checkpoint_round_trip_fails_iff (ops : ValOps V) (e : V) (s : Chunks V) :
+    roundTrip FactsC05.emptyStreamStoredAsNil ops s = none ↔ absS ops e s = none :=
+  roundTrip_none_iff ops e _ s
+
+/-- a second round trip (interrupt again before the stream is consumed) changes nothing -/
+theorem checkpoint_round_trip_idempotent (ops : ValOps V) (s cs : Chunks V)
+    (h : roundTrip FactsC05.emptyStreamStoredAsNil ops s = some cs) :
+    roundTrip FactsC05.emptyStreamStoredAsNil ops cs = some cs := by
+  have hf : FactsC05.emptyStreamStoredAsNil = true := by decide
+  rw [hf] at h ⊢
+  exact roundTrip_idem ops s cs h
+
+/-- **Negation witness for the other converter** (`emptyStreamStoredAsNil = false`: the typed zero value
+    is stored for a stream without chunks): the chunk-less stream comes back as a stream with one zero
+    chunk, which every reader that tells "no chunk" from the zero value observes. -/
+theorem zero_value_checkpoint_loses_chunkless_stream (ops : ValOps V) (e : V) (he : e ≠ ops.zero) :
+    roundTrip false ops ([] : Chunks V) = some [ops.zero] ∧
+    absS ops e [ops.zero] ≠ absS ops e ([] : Chunks V) := by
+  refine ⟨rfl, ?_⟩
+  simp only [absS, ne_eq, Option.some.injEq]
+  exact fun h => he h.symm
+
+/-- **mergeE_conservative.**  On values of the old universe the oracle's merge is `FlatMap.merge`. -/
+theorem mergeE_conservative (vs : List FlatMap) (h : ∀ v ∈ vs, isE v = false) : mergeE vs = FlatMap.merge vs :=
+  mergeE_of_no_empty vs h
+
+/-- **mergeE_drops_chunkless.**  A fan-in of streams is one stream with the chunks of all: chunk-less
+    streams contribute nothing; only chunk-less streams give a chunk-less stream. -/
+theorem mergeE_drops_chunkless (vs : List FlatMap) :
+    ((∃ v ∈ vs, isE v = false) → mergeE (emptyV :: vs) = mergeE vs) ∧
+    (vs ≠ [] → (∀ v ∈ vs, isE v = true) → mergeE vs = some emptyV) :=
+  ⟨mergeE_cons_empty vs, mergeE_all_empty vs⟩
+
+/-- **one_mode_history_is_resume_loop.**  A history whose calls all run the graph in the same mode (the
+    oracle's `histLoop` with a constant runner) is `resumeLoop`: the resume-equivalence theorems of this
+    file apply to it as they stand. -/
+theorem one_mode_history_is_resume_loop (ops : ValOps V) (cfg : Cfg) (r : IRunner V S X) (sched : ISched V S X)
+    (n i : Nat) (inp : V ⊕ Checkpoint V S X) :
+    histLoop ops cfg (fun _ => r) sched n i inp = resumeLoop ops cfg r sched n inp :=
+  histLoop_const ops cfg r sched n i inp
+
+/-! non-vacuity: a value universe with the stream without chunks (`none`), a history that carries it
+    through two checkpoints as a pending input -/
+
+/-- values `some n`, the stream without chunks `none`; a fan-in drops it -/
+def optOps : ValOps (Option Nat) :=
+  { merge := fun l => some (match l.filterMap id with | [] => none | ns => some ns.sum), zero := some 0 }
+
+/-- start → e → p → c → end: `e` answers with a stream without chunks, `p` hands on what it gets, `c` reads
+    the chunks (none: 100); interrupt-after {e}, interrupt-before {c} -/
+def chunkless : IRunner (Option Nat) Nat Unit :=
+  { base := compile 10 { nodes := [("e", fun v => .ok v), ("p", fun v => .ok v), ("c", fun v => .ok v)],
+                         edges := [(START, "e"), ("e", "p"), ("p", "c"), ("c", END)], branches := [] },
+    inodes := [{ key := "e", body := fun _ s _ => { res := .done none (s + 1) } },
+               { key := "p", body := fun v s _ => { res := .done v s } },
+               { key := "c", body := fun v s _ => { res := .done (some (match v with | none => 100 | some n => n + 1)) s } }],
+    intBefore := ["c"], intAfter := ["e"], initState := 0 }
+
+def finalValO (h : List (Out (Option Nat) Nat Unit)) : Option (Option Nat) :=
+  match Out.finalOf h with | some (.done v) => some v | _ => none
+
+example : (resumeUntilDone optOps fixedCfg chunkless ISched.id 10 (some 1)).length = 3 := by decide
+example : finalValO (resumeUntilDone optOps fixedCfg chunkless ISched.id 10 (some 1)) = some (some 100) := by decide
+example : finalValO [run₀ optOps fixedCfg chunkless ISched.id (some 1)] = some (some 100) := by decide
+example : execLog (allEvs (resumeUntilDone optOps fixedCfg chunkless ISched.id 10 (some 1))) =
+    [("e", some 1), ("p", none), ("c", none)] := by decide
+example : execLog (allEvs [run₀ optOps fixedCfg chunkless ISched.id (some 1)]) =
+    [("e", some 1), ("p", none), ("c", none)] := by decide
+example : run₀FinishesIn optOps chunkless ISched.id 3 (some 1) := run₀FinishesIn_of_B _ _ _ _ _ (by decide)
+example : roundTrip true optOps ([] : Chunks (Option Nat)) = some [] := rfl
+example : absS optOps none <$> roundTrip false optOps ([] : Chunks (Option Nat)) = some (some (some 0)) := rfl
+example : mergeE [emptyV, [("a", "1")]] = some [("a", "1")] := by decide
+example : mergeE [emptyV, emptyV] = some emptyV := by decide
+
+end Streams
 
 end EinoV.C05
